@@ -14,7 +14,7 @@
 (* PeerConnections (harness/sdp).                                             *)
 EXTENDS Naturals, Sequences, FiniteSets, TLC, Json
 
-CONSTANTS MaxSteps, MaxTrs, Kinds, Dirs, Ops
+CONSTANTS MaxSteps, MaxTrs, Kinds, Dirs, Ops, RecordPath
 
 Peers == {"A", "B"}
 Other(p) == IF p = "A" THEN "B" ELSE "A"
@@ -26,15 +26,16 @@ VARIABLES trs,       \* trs[p]: sequence of [kind, dir, track, mid]
           nextMid,   \* next fresh mid number (mids are never reused)
           n,         \* steps taken
           hist,      \* history variable: every value `secs` had after an exchange
-          last
+          last,
+          path       \* the actions taken so far (recorded only when RecordPath: simulation runs)
 
-vars == <<trs, dc, secs, nextMid, n, hist, last>>
+vars == <<trs, dc, secs, nextMid, n, hist, last, path>>
 view == <<trs, dc, secs, nextMid, n>>
 St == [trs |-> trs, dc |-> dc, secs |-> secs, n |-> n]
 
 Init == /\ trs = [p \in Peers |-> <<>>] /\ dc = [p \in Peers |-> FALSE]
         /\ secs = <<>> /\ nextMid = 1 /\ n = 0 /\ hist = <<>>
-        /\ last = [op |-> "init"]
+        /\ last = [op |-> "init"] /\ path = <<>>
 
 Tick == n < MaxSteps /\ n' = n + 1
 
@@ -126,10 +127,11 @@ Negotiate(p) ==
   /\ UNCHANGED dc
   /\ last' = [op |-> "negotiate", who |-> p]
 
-Next == \/ \E p \in Peers, k \in Kinds, d \in Dirs, w \in BOOLEAN : AddTransceiver(p, k, d, w)
+Step == \/ \E p \in Peers, k \in Kinds, d \in Dirs, w \in BOOLEAN : AddTransceiver(p, k, d, w)
         \/ \E p \in Peers, k \in Kinds : AddTrack(p, k)
         \/ \E p \in Peers, i \in 1..MaxTrs + 2 : RemoveTrack(p, i) \/ Stop(p, i)
         \/ \E p \in Peers : CreateDC(p) \/ OfferOnly(p) \/ Negotiate(p)
+Next == Step /\ path' = IF RecordPath THEN Append(path, last') ELSE path
 
 Spec == Init /\ [][Next]_vars
 
@@ -152,5 +154,6 @@ ModelMidNeverChanges == [][\A p \in Peers : \A i \in 1..Len(trs[p]) :
                              trs[p][i].mid # NoMid => (i <= Len(trs'[p]) /\ trs'[p][i].mid = trs[p][i].mid)]_vars
 
 EmitInitInv == (last.op = "init") => PrintT(<<"VERIF_INIT", ToJson(St)>>)
+EmitPath == (n = MaxSteps) => PrintT(<<"VERIF_PATH", ToJson(path)>>)
 EmitEdge == PrintT(<<"VERIF_EDGE", ToJson([f |-> St, a |-> last', t |-> St'])>>)
 =============================================================================
